@@ -642,3 +642,10 @@ seeded('C14', 'Uniform constructor accepts hi == lo ... and lo > hi', 'R14.7',
          "        self._lo = float(lo)\n        self._hi = float(hi)\n\n    def draw(self) -> float:\n        \"\"\"\n        Draw a value from the Uniform distribution.")], key='ordering-guard')
 benign('C14', 'Uniform draw written as a convex combination of named parts',
        [('distributions', "        return self._lo + (self._hi - self._lo) * self._stream.next_float()", "        width = self._hi - self._lo\n        u = self._stream.next_float()\n        return self._lo + u * width")])
+seeded('C15', 'Normal density normalised with sqrt(pi) instead of sqrt(2 pi)', 'R15.5',
+       [('distributions', "        return (1.0 / (self._sigma * math.sqrt(2.0 * math.pi))\n                * math.exp(-0.5 * ((x - self._mu) / self._sigma) ** 2))\n        \n    def cumulative_probability(self, x: float) -> float:\n        \"\"\"Return the cumulative probability of x for this Normal distribution\"\"\"",
+         "        return (1.0 / (self._sigma * math.sqrt(math.pi))\n                * math.exp(-0.5 * ((x - self._mu) / self._sigma) ** 2))\n        \n    def cumulative_probability(self, x: float) -> float:\n        \"\"\"Return the cumulative probability of x for this Normal distribution\"\"\"")], key='DistNormal')
+seeded('C15', 'LogNormal density without the 1/x factor', 'R15.5',
+       [('distributions', "                    / (x * self._c2pisigma2))", "                    / self._c2pisigma2)")], key='DistLogNormal')
+benign('C15', 'LogNormal density with the exponent written through the field sigma',
+       [('distributions', "            return (math.exp(-1 * xminmu * xminmu / self._c2sigma2) ", "            return (math.exp(-(xminmu ** 2) / (2.0 * self._sigma * self._sigma)) ")])
